@@ -93,6 +93,8 @@ def container_case(draw, tier="quick"):
             levels.append(mem if mem is not None else read)
             if mem is None and read > 0:
                 levels.append(20.0 / tps)
+        if len(segs) >= 2 and draw(st.integers(0, 3)) == 0:
+            segs.append(dict(segs[0]))      # the same stage again (scan, crunch, scan): built as ONE Segment object listed twice
         ops.append(segs)
     peak = max(levels + [0.0])
     ramkind = draw(st.sampled_from(["above", "above", "above", "equal", "equal", "below", "between", "nice", "tiny"]))
@@ -173,9 +175,13 @@ def build_pipeline(ops_spec, name="p", parents=None):
             o = p.new_operator([real[j] for j in parents[k]] or None)
         else:
             o = p.new_operator([prev] if prev else None)
+        same = {}
         for sg in segs:
-            o.add_segment(Segment(baseline_cpu_seconds=sg["cpu"], cpu_scaling=sg["law"], memory_gb=sg["mem"],
-                                  storage_read_gb=sg["read"]))
+            key = (sg["cpu"], sg["law"], sg["mem"], sg["read"])
+            if key not in same or k % 2:
+                # identical stages of an even-numbered operator are one Segment object added twice
+                same[key] = Segment(baseline_cpu_seconds=sg["cpu"], cpu_scaling=sg["law"], memory_gb=sg["mem"], storage_read_gb=sg["read"])
+            o.add_segment(same[key])
         prev = o
         real.append(o)
     return p, real
